@@ -125,6 +125,8 @@ def apply_contract(ctx, cs, fn, args, kwargs):
 def _apply_contract_tail(ctx, c, fn, target, ns, ghosts):
     if c.setup_spec is not None:
         ctx.call_spec(c.setup_spec, ns)
+    if c.snapshot_spec is not None:
+        ctx.call_spec(c.snapshot_spec, ns)
     old = types.SimpleNamespace(**{k: ctx.clone(v) for k, v in ns.items()})
     # exceptional outcomes (over-approximated: any declared exception may occur when allowed)
     ncases = 1 + len(c.raises)
@@ -171,7 +173,19 @@ def _apply_contract_tail(ctx, c, fn, target, ns, ghosts):
         params = inspect.signature(f).parameters
         if any(g in params for g in ghosts):
             continue          # ghost-quantified clause: available through instantiate_post(...)
-        ctx.assume(ctx.as_goal(ctx.call_spec(f, ns3)))
+        if c.check_effect:
+            ctx.prove("%s/effect-consistent@%s#%s" % (ctx.proof_label, c.short, nm),
+                      ctx.as_goal(ctx.call_spec(f, ns3)))
+        else:
+            try:
+                ctx.assume(ctx.as_goal(ctx.call_spec(f, ns3)))
+            except PathEnd:
+                # vacuity guard: a callee postcondition that contradicts the caller's path means the
+                # contract (frame / result shape) does not fit this call -- never a silent dead path
+                ctx.note_oblig("%s/contract-fits@%s#%s" % (ctx.proof_label, c.short, nm), "unknown",
+                               {"note": "postcondition of the callee contract is inconsistent with the "
+                                        "caller's state on this path (frame or result shape incomplete)"})
+                raise
     return result
 
 
@@ -480,6 +494,8 @@ def run_contract(eng, c, clause_filter=None):
             ctx.call_spec(c.setup_spec, ns)
         if c.requires is not None:
             ctx.assume(ctx.as_goal(ctx.call_spec(c.requires, ns)))
+        if c.snapshot_spec is not None:
+            ctx.call_spec(c.snapshot_spec, ns)
         for fid, region in c.regions.items():
             ctx.assume(z3.Not(ctx.as_goal(ctx.call_spec(region, ns))))
         ctx.witness_ns = {p: (c.args[p], ns[p]) for p in c.args}
